@@ -1,282 +1,27 @@
 (** Time/Musl.v — executable model of tracing-subscriber/src/fmt/time/datetime.rs
     (`impl From<SystemTime> for DateTime`, musl's __secs_to_tm, and `impl Display for DateTime`).
-    Definitions only; the proofs are in Time/MuslProofs.v.
+    Definitions only; the proofs are in Time/MuslProofs.v and Time/DisplayProofs.v.
 
-    The Rust code is transcribed statement by statement on [Z]:
-      - Rust's `/` and `%` truncate toward zero: [Z.quot] / [Z.rem];
-      - every arithmetic result and every `as` / `From` conversion goes through the [mode]:
-          [release]  arithmetic wraps (overflow-checks off), casts wrap, debug_assert! is compiled out;
-          [debug]    arithmetic overflow panics, casts wrap, debug_assert! is checked;
-          [strict]   like [debug] and additionally every cast must be the identity
-                     (used to *state* "no cast ever changes a value");
-        a panic is the value [None];
-      - indexing `DAYS_IN_MONTH[i]` panics ([None]) out of bounds;
-      - the constants LEAPOCH, DAYS_PER_400Y, DAYS_PER_100Y, DAYS_PER_4Y and the table DAYS_IN_MONTH are
-        not written here: they come from TVGen.Gen_time_consts, regenerated from the source on every run.
-
-    Input: a `SystemTime` is std's `Timespec { tv_sec : i64, tv_nsec : 0..1e9 }` (unix), denoting
-    tv_sec + tv_nsec/1e9 seconds after the epoch; [std_duration_since_epoch] is
-    `timestamp.duration_since(UNIX_EPOCH)` (std, trusted: assumption "SystemTime <-> (secs,nanos) is std's"). *)
-From Coq Require Import ZArith List Bool.
-From TV Require Export Time.Ints.
-From TVGen Require Export Gen_time_consts.
+    Nothing of datetime.rs is transcribed by hand any more:
+      - Time/MuslBase.v          the vocabulary: Rust integer operations per build profile ([release], [debug],
+                                 [strict]), std's `duration_since` and std's integer formatting;
+      - TVGen.Gen_time_consts    LEAPOCH, DAYS_PER_400Y, DAYS_PER_100Y, DAYS_PER_4Y, DAYS_IN_MONTH   (translators/time_consts.py)
+      - TVGen.Gen_datetime       [split], [day_split], [cycle_split], [in_cycle], [years_of], [month_loop], [months_of],
+                                 [finish], [from_parts], [from_systemtime], [display]: every statement of the two
+                                 function bodies, one monadic step per Rust operation  (translators/datetime_rs.py)
+    both regenerated from the source on every run; this file only composes them. *)
+From Coq Require Import ZArith List Bool String.
+From TV Require Export Time.MuslBase.
+From TVGen Require Export Gen_time_consts Gen_datetime.
 Import ListNotations.
 Local Open Scope Z_scope.
 
-(* ---------------------------------------------------------------------------------------------- *)
-(** * Modes *)
-
-Record mode := Mode {
-  m_arith : ity -> Z -> option Z;      (* the result of + - * unary- at type ty *)
-  m_cast : ity -> Z -> option Z;       (* `x as ty`, `ty::from(x)` *)
-  m_dassert : bool -> option unit      (* debug_assert!(b) *)
-}.
-
-Definition ck (ty : ity) (x : Z) : option Z := if fits ty x then Some x else None.
-Definition wr (ty : ity) (x : Z) : option Z := Some (wrap ty x).
-Definition assert_on (b : bool) : option unit := if b then Some tt else None.
-Definition assert_off (b : bool) : option unit := Some tt.
-
-Definition release : mode := Mode wr wr assert_off.
-Definition debug : mode := Mode ck wr assert_on.
-Definition strict : mode := Mode ck ck assert_on.
-
-Notation "x <- e ;; k" := (match e with Some x => k | None => None end)
-  (at level 61, e at next level, right associativity, only parsing).
-Notation "' p <- e ;; k" := (match e with Some p => k | None => None end)
-  (at level 61, p pattern, e at next level, right associativity, only parsing).
-
-Definition add (md : mode) (ty : ity) (a b : Z) : option Z := m_arith md ty (a + b).
-Definition sub (md : mode) (ty : ity) (a b : Z) : option Z := m_arith md ty (a - b).
-Definition mul (md : mode) (ty : ity) (a b : Z) : option Z := m_arith md ty (a * b).
-Definition neg (md : mode) (ty : ity) (a : Z) : option Z := m_arith md ty (- a).
-(** Division and remainder panic on a zero divisor and on MIN / -1 in every build profile. *)
-Definition div (ty : ity) (a b : Z) : option Z := if b =? 0 then None else ck ty (Z.quot a b).
-Definition rem (ty : ity) (a b : Z) : option Z :=
-  if b =? 0 then None else if fits ty (Z.quot a b) then Some (Z.rem a b) else None.
-
-Fixpoint nth_Z (l : list Z) (i : Z) : option Z :=
-  match l with
-  | [] => None
-  | x :: r => if i =? 0 then Some x else nth_Z r (i - 1)
-  end.
-
-(* ---------------------------------------------------------------------------------------------- *)
-(** * DateTime *)
-
-Record datetime := DT {
-  year : Z;     (* i64 *)
-  month : Z;    (* u8 *)
-  day : Z;      (* u8 *)
-  hour : Z;     (* u8 *)
-  minute : Z;   (* u8 *)
-  second : Z;   (* u8 *)
-  nanos : Z     (* u32 *)
-}.
-
-(** std: `SystemTime::duration_since(UNIX_EPOCH)` — Ok(duration) when not before the epoch, else
-    Err(error) with `error.duration()` the distance *back* to the epoch; (secs : u64, subsec_nanos). *)
-Inductive dur_result := DOk (secs nanos : Z) | DErr (secs nanos : Z).
-
-Definition NANOS_PER_SEC : Z := 1000000000.
-
-Definition std_duration_since_epoch (tv_sec tv_nsec : Z) : dur_result :=
-  if 0 <=? tv_sec then DOk tv_sec tv_nsec
-  else if tv_nsec =? 0 then DErr (- tv_sec) 0
-  else DErr (- tv_sec - 1) (NANOS_PER_SEC - tv_nsec).
-
-(** datetime.rs lines 247-262: `let (t, nanos) = match timestamp.duration_since(UNIX_EPOCH) {...}`. *)
-Definition split (md : mode) (tv_sec tv_nsec : Z) : option (Z * Z) :=
-  match std_duration_since_epoch tv_sec tv_nsec with
-  | DOk secs nanos =>
-      imax <- m_cast md U64 I64_MAX ;;                       (* i64::MAX as u64 *)
-      _ <- m_dassert md (secs <=? imax) ;;                   (* debug_assert!(duration.as_secs() <= ..) *)
-      t <- m_cast md I64 secs ;;                             (* duration.as_secs() as i64 *)
-      Some (t, nanos)
-  | DErr secs nanos =>
-      imax <- m_cast md U64 I64_MAX ;;
-      _ <- m_dassert md (secs <=? imax) ;;
-      secs <- m_cast md I64 secs ;;
-      if nanos =? 0 then
-        t <- neg md I64 secs ;;                              (* (-secs, 0) *)
-        Some (t, 0)
-      else
-        a <- neg md I64 secs ;;                              (* (-secs - 1, 1_000_000_000 - nanos) *)
-        t <- sub md I64 a 1 ;;
-        n <- sub md U32 NANOS_PER_SEC nanos ;;
-        Some (t, n)
-  end.
-
-(** datetime.rs lines 309-313: `while i32::from(DAYS_IN_MONTH[months as usize]) <= remdays {...}`.
-    The fuel is one more than the table length: [months] grows by one per iteration from 0, so the
-    index runs off the table (a panic, [None]) before the fuel can run out. *)
-Fixpoint month_loop (md : mode) (fuel : nat) (months remdays : Z) : option (Z * Z) :=
-  match fuel with
-  | O => None
-  | S fuel' =>
-      idx <- m_cast md USIZE months ;;
-      e <- nth_Z DAYS_IN_MONTH idx ;;
-      e <- m_cast md I32 e ;;
-      if e <=? remdays then
-        remdays <- sub md I32 remdays e ;;                   (* remdays -= i32::from(DAYS_IN_MONTH[..]) *)
-        months <- add md I32 months 1 ;;                     (* months += 1 *)
-        month_loop md fuel' months remdays
-      else Some (months, remdays)
-  end.
-
-(** datetime.rs lines 264-328 in five contiguous blocks, composed in source order by [from_parts]. *)
-
-(** lines 272-277: (days since LEAPOCH's day, second of the day). *)
-Definition day_split (md : mode) (t : Z) : option (Z * Z) :=
-  (* let mut days: i64 = (t / 86_400) - (LEAPOCH / 86_400); *)
-  d0 <- div I64 t 86400 ;;
-  lq <- div I64 LEAPOCH 86400 ;;
-  days <- sub md I64 d0 lq ;;
-  (* let mut remsecs: i32 = (t % 86_400) as i32; *)
-  r0 <- rem I64 t 86400 ;;
-  remsecs <- m_cast md I32 r0 ;;
-  (* if remsecs < 0i32 { remsecs += 86_400; days -= 1 } *)
-  if remsecs <? 0 then
-    remsecs <- add md I32 remsecs 86400 ;;
-    days <- sub md I64 days 1 ;;
-    Some (days, remsecs)
-  else Some (days, remsecs).
-
-(** lines 279-284: (400-year cycle number, day within the cycle). *)
-Definition cycle_split (md : mode) (days : Z) : option (Z * Z) :=
-  (* let mut qc_cycles: i32 = (days / i64::from(DAYS_PER_400Y)) as i32; *)
-  d400 <- m_cast md I64 DAYS_PER_400Y ;;
-  qc0 <- div I64 days d400 ;;
-  qc_cycles <- m_cast md I32 qc0 ;;
-  (* let mut remdays: i32 = (days % i64::from(DAYS_PER_400Y)) as i32; *)
-  d400 <- m_cast md I64 DAYS_PER_400Y ;;
-  rd0 <- rem I64 days d400 ;;
-  remdays <- m_cast md I32 rd0 ;;
-  (* if remdays < 0 { remdays += DAYS_PER_400Y; qc_cycles -= 1; } *)
-  if remdays <? 0 then
-    remdays <- add md I32 remdays DAYS_PER_400Y ;;
-    qc_cycles <- sub md I32 qc_cycles 1 ;;
-    Some (qc_cycles, remdays)
-  else Some (qc_cycles, remdays).
-
-(** lines 286-302: (c_cycles, q_cycles, remyears, day within the year starting 1 March). *)
-Definition in_cycle (md : mode) (remdays : Z) : option (Z * Z * Z * Z) :=
-  (* let mut c_cycles: i32 = remdays / DAYS_PER_100Y; if c_cycles == 4 { c_cycles -= 1; } *)
-  c_cycles <- div I32 remdays DAYS_PER_100Y ;;
-  c_cycles <- (if c_cycles =? 4 then sub md I32 c_cycles 1 else Some c_cycles) ;;
-  (* remdays -= c_cycles * DAYS_PER_100Y; *)
-  x <- mul md I32 c_cycles DAYS_PER_100Y ;;
-  remdays <- sub md I32 remdays x ;;
-  (* let mut q_cycles: i32 = remdays / DAYS_PER_4Y; if q_cycles == 25 { q_cycles -= 1; } *)
-  q_cycles <- div I32 remdays DAYS_PER_4Y ;;
-  q_cycles <- (if q_cycles =? 25 then sub md I32 q_cycles 1 else Some q_cycles) ;;
-  (* remdays -= q_cycles * DAYS_PER_4Y; *)
-  x <- mul md I32 q_cycles DAYS_PER_4Y ;;
-  remdays <- sub md I32 remdays x ;;
-  (* let mut remyears: i32 = remdays / 365; if remyears == 4 { remyears -= 1; } *)
-  remyears <- div I32 remdays 365 ;;
-  remyears <- (if remyears =? 4 then sub md I32 remyears 1 else Some remyears) ;;
-  (* remdays -= remyears * 365; *)
-  x <- mul md I32 remyears 365 ;;
-  remdays <- sub md I32 remdays x ;;
-  Some (c_cycles, q_cycles, remyears, remdays).
-
-(** lines 304-307. *)
-Definition years_of (md : mode) (remyears q_cycles c_cycles qc_cycles : Z) : option Z :=
-  (* let mut years: i64 = i64::from(remyears) + 4 * i64::from(q_cycles)
-                          + 100 * i64::from(c_cycles) + 400 * i64::from(qc_cycles); *)
-  a <- m_cast md I64 remyears ;;
-  b <- m_cast md I64 q_cycles ;;
-  b <- mul md I64 4 b ;;
-  ab <- add md I64 a b ;;
-  c <- m_cast md I64 c_cycles ;;
-  c <- mul md I64 100 c ;;
-  abc <- add md I64 ab c ;;
-  d <- m_cast md I64 qc_cycles ;;
-  d <- mul md I64 400 d ;;
-  add md I64 abc d.
-
-(** lines 315-328. *)
-Definition finish (md : mode) (years months remdays remsecs nanos : Z) : option datetime :=
-  (* if months >= 10 { months -= 12; years += 1; } *)
-  '(months, years) <- (if 10 <=? months then
-                         mo <- sub md I32 months 12 ;;
-                         ye <- add md I64 years 1 ;;
-                         Some (mo, ye)
-                       else Some (months, years)) ;;
-  (* DateTime { year: years + 2000, month: (months + 3) as u8, day: (remdays + 1) as u8,
-                hour: (remsecs / 3600) as u8, minute: (remsecs / 60 % 60) as u8,
-                second: (remsecs % 60) as u8, nanos } *)
-  ye <- add md I64 years 2000 ;;
-  mo <- add md I32 months 3 ;;
-  mo <- m_cast md U8 mo ;;
-  da <- add md I32 remdays 1 ;;
-  da <- m_cast md U8 da ;;
-  ho <- div I32 remsecs 3600 ;;
-  ho <- m_cast md U8 ho ;;
-  mi <- div I32 remsecs 60 ;;
-  mi <- rem I32 mi 60 ;;
-  mi <- m_cast md U8 mi ;;
-  se <- rem I32 remsecs 60 ;;
-  se <- m_cast md U8 se ;;
-  Some (DT ye mo da ho mi se nanos).
-
-Definition from_parts (md : mode) (t nanos : Z) : option datetime :=
-  '(days, remsecs) <- day_split md t ;;
-  '(qc_cycles, remdays) <- cycle_split md days ;;
-  '(c_cycles, q_cycles, remyears, remdays) <- in_cycle md remdays ;;
-  years <- years_of md remyears q_cycles c_cycles qc_cycles ;;
-  (* let mut months: i32 = 0; while ... *)
-  '(months, remdays) <- month_loop md (S (length DAYS_IN_MONTH)) 0 remdays ;;
-  finish md years months remdays remsecs nanos.
-
-(** `DateTime::from(timestamp)`. *)
-Definition from_systemtime (md : mode) (tv_sec tv_nsec : Z) : option datetime :=
-  '(t, nanos) <- split md tv_sec tv_nsec ;;
-  from_parts md t nanos.
-
-(* ---------------------------------------------------------------------------------------------- *)
-(** * Display *)
-
-(** Decimal digits (ASCII codes) of a non-negative integer, most significant first; what `{}` prints.
-    [fuel] bounds the number of digits; running out of it is [None], never a truncated numeral. *)
-Fixpoint dec_digits (fuel : nat) (n : Z) (acc : list Z) : option (list Z) :=
-  match fuel with
-  | O => None
-  | S fuel' =>
-      let acc := (48 + n mod 10) :: acc in
-      if n <? 10 then Some acc else dec_digits fuel' (n / 10) acc
-  end.
-
-Definition dec (n : Z) : option (list Z) := dec_digits 40 n [].
-
-(** `{:0w}` of a non-negative integer: zero-padded on the left to at least [w] characters. *)
-Definition pad0 (w : nat) (n : Z) : option (list Z) :=
-  ds <- dec n ;;
-  Some (repeat 48 (w - length ds) ++ ds).
-
-Definition ch_plus : Z := 43.   Definition ch_minus : Z := 45.   Definition ch_dot : Z := 46.
-Definition ch_colon : Z := 58.  Definition ch_T : Z := 84.       Definition ch_Z : Z := 90.
-
-(** datetime.rs lines 222-243.  `{:05}` of a negative i64 prints the sign and pads the digits to the
-    remaining four columns. *)
-Definition display (dt : datetime) : option (list Z) :=
-  y <- (if 9999 <? year dt then ds <- dec (year dt) ;; Some (ch_plus :: ds)
-        else if year dt <? 0 then ds <- pad0 4 (- year dt) ;; Some (ch_minus :: ds)
-        else pad0 4 (year dt)) ;;
-  mo <- pad0 2 (month dt) ;;
-  da <- pad0 2 (day dt) ;;
-  ho <- pad0 2 (hour dt) ;;
-  mi <- pad0 2 (minute dt) ;;
-  se <- pad0 2 (second dt) ;;
-  us <- pad0 6 (Z.quot (nanos dt) 1000) ;;                    (* self.nanos / 1_000 *)
-  Some (y ++ [ch_minus] ++ mo ++ [ch_minus] ++ da ++ [ch_T] ++ ho ++ [ch_colon] ++ mi ++ [ch_colon] ++ se
-          ++ [ch_dot] ++ us ++ [ch_Z]).
-
-(** What `SystemTime::format_time` writes for the instant (tv_sec, tv_nsec): ASCII codes, or [None] = panic. *)
+(** What `SystemTime::format_time` writes for the instant (tv_sec, tv_nsec): ASCII codes, or [None] = panic.
+    (fmt/time/mod.rs: `write!(w, "{}", datetime::DateTime::from(std::time::SystemTime::now()))`.) *)
 Definition format_system_time (md : mode) (tv_sec tv_nsec : Z) : option (list Z) :=
   dt <- from_systemtime md tv_sec tv_nsec ;;
-  display dt.
+  display md dt.
 
-Definition valid_systemtime (tv_sec tv_nsec : Z) : Prop :=
-  I64_MIN <= tv_sec <= I64_MAX /\ 0 <= tv_nsec < NANOS_PER_SEC.
+(** The instant's fields in print order: (year, month, day, hour, minute, second, microseconds printed). *)
+Definition fields_of (dt : datetime) : Z * Z * Z * Z * Z * Z * Z :=
+  (year dt, month dt, day dt, hour dt, minute dt, second dt, nanos dt / 1000).
